@@ -24,7 +24,10 @@ func init() {
 		run.Trusted = []string{"Go regexp modelled by a derivative matcher (CurlyRouter) and by the closed form of DESIGN 4.2 (RouterJSR311)", "sort.Sort is insertion sort for n ≤ 12"}
 		run.Assumptions = []string{"templates inside the grammar of the quantifier and ids that identify (checked per table by the driver: Config.wfTemplates, Spec.idsDistinct, rootsRead)", "If-conditions are pure functions of the request"}
 		n := sizes(run, 150, 3000)
-		p := routing.PropSpec{ID: "C01", SpecKey: "C01", Proj: routing.ProjWhich, NeedWF: true}
+		// SeenSelected: a third of the tables are built with observing pass-through filters (container,
+		// WebService, route level); whatever they and the handler see as Request.SelectedRoute() must be
+		// the route whose function ran — on containers that have served other requests before
+		p := routing.PropSpec{ID: "C01", SpecKey: "C01", Proj: routing.ProjWhich, NeedWF: true, SeenSelected: true}
 		if err := routing.CheckStreams(run, p, []routing.StreamSpec{
 			{Name: "curly", Opts: routing.FullOpts("curly"), NCfg: n, PerCfg: 20},
 			{Name: "jsr", Opts: routing.FullOpts("jsr"), NCfg: n, PerCfg: 20},
@@ -84,7 +87,7 @@ func init() {
 	}
 
 	checks["C14"] = func(run *report.Run) error {
-		run.Rule = "every generated request whose path has a non-empty segment and does not end in '/' is dispatched as p and as p/ on the same container; the two real outcomes must be the same (Spec.sameOutcomeB: status, route, parameters, Allow set) and each must equal the model's; distinct = distinct (table, request) pairs whose root matched"
+		run.Rule = "every generated request whose path has a non-empty segment and does not end in '/' is dispatched as p and as p/ on the same container; the two real outcomes must be the same (Spec.sameOutcomeB: status, route, parameters, Allow set) and each must equal the model's; allow.CheckSlash: statuses, 405 Allow sets and the lists of Container.OPTIONSFilter for p and p/ on the common fragment — on freshly built containers and, every other pair, on ONE pair of containers with a past (OPTIONS / preflight / GET traffic to only one of the two forms, then a route added to a registered WebService with ws.Route or removed with ws.RemoveRoute, then both forms observed); distinct = distinct (table, request) pairs whose root matched"
 		routingMeta(run)
 		n := sizes(run, 150, 3000)
 		slash := func(r *rng.R, cfg routing.Config, reqs []routing.Req) []routing.Variant {
@@ -120,6 +123,19 @@ func init() {
 				}
 				return ""
 			}}, "jsr", pairs)
+		// … and on negotiation tables (several routes with the same method and template that differ in what
+		// they produce and consume; requests with and without Accept / Content-Type, resources named like
+		// files): there the selected route is decided by the media stages alone, and nothing about the
+		// path's last characters may enter that decision
+		for i, router := range []string{"curly", "jsr"} {
+			no := routing.FullOpts(router)
+			no.OnlyNegotiation = true
+			pairs, err = routing.RunVariants(run.Seed*7919+3+uint64(i), n/2, 20, no, slash)
+			if err != nil {
+				return err
+			}
+			routing.CheckPairs(run, routing.PairSpec{ID: "C14"}, router+"-negotiation", pairs)
+		}
 		// "same Allow header": also the one the OPTIONS filter computes (Container.computeAllowedMethods)
 		for _, router := range []string{"curly", "jsr"} {
 			if err := allow.CheckSlash(run, router, n/2, 12); err != nil {
@@ -205,6 +221,25 @@ func init() {
 		}
 		routing.CheckPairs(run, routing.PairSpec{ID: "C03", Single: &single, Opts: &jo,
 			Applies: func(p *routing.PairCase) bool { return p.Class["distinctMethodPath"] == "1" }}, "jsr-literal-roots", pairs)
+		// (3) the same pair property through the http.Handler side of the container (Container.ServeHTTP):
+		// which WebService is registered first also decides what Container.Add tells the ServeMux. The
+		// real outcomes of the permuted builds are compared with one another (no model of the ServeMux
+		// here). Guard: tables whose root paths are literal, not "/" and declared without a trailing slash
+		// (Opts.PlainRoots) — on those the set of ServeMux patterns is the union of {root, root/} whatever
+		// the order; with a WebService on "/" or on a root that starts with a variable, Container.Add stops
+		// registering patterns from that WebService on, and what net/http redirects by itself then depends
+		// on the order (DESIGN §11, the withdrawn attempt). Sibling roots that are string prefixes of one
+		// another without being segment prefixes (/api, /apidocs) are part of these tables.
+		for i, router := range []string{"curly", "jsr"} {
+			so := routing.FullOpts(router)
+			so.RootVars, so.RootRe, so.PlainRoots, so.ViaServe, so.Contest = false, false, true, true, false
+			pairs, err = routing.RunVariants(run.Seed*104729+3+uint64(i), n/2, 15, so, perms)
+			if err != nil {
+				return err
+			}
+			routing.CheckPairs(run, routing.PairSpec{ID: "C03", NoModel: true,
+				Applies: func(p *routing.PairCase) bool { return p.Class["distinctMethodPath"] == "1" }}, router+"-served-plain-roots", pairs)
+		}
 		run.Extra["skipped_tables_F11"] = routing.SkippedBuild
 		return nil
 	}
@@ -299,6 +334,20 @@ func init() {
 				}
 				return ""
 			}}, "twin-routers", pairs)
+		// "unobservable to clients" also while other requests are in flight: a router that keeps working
+		// storage across requests answers a request differently from its twin as soon as two requests
+		// overlap. Each router must give every request the outcome it gives it alone (the alone outcomes
+		// are the ones compared between the routers above): plain parallel traffic on tables of the common
+		// fragment, and batches held together after routing and released (stage log = the sequential one).
+		for _, router := range []string{"curly", "jsr"} {
+			ho := o
+			ho.Router, ho.Faults = router, false
+			routing.CheckHammer(run, "C18", ho, run.Seed*2246822519+uint64(len(router)), sizes(run, 40, 400), 16, 6)
+			sp := serve.PropSpec{ID: "C18", Proj: serve.ProjLog}
+			if err := serve.CheckConcurrent(run, sp, serve.GenOpts{Router: router, PanicPct: 0}, n, 6); err != nil {
+				return err
+			}
+		}
 		for id, w := range map[string]func() bool{"F15": routing.WitnessF15, "F16": routing.WitnessF16pair, "F17": routing.WitnessF17} {
 			if w() {
 				run.KnownHits[id]++
@@ -311,7 +360,7 @@ func init() {
 
 func init() {
 	checks["C17"] = func(run *report.Run) error {
-		run.Rule = "tables of the fragment both matching engines support (literal and plain-variable segments, literal roots, nested on purpose), every generated URL probed with GET, POST, PUT, PATCH, DELETE, HEAD, OPTIONS, TRACE, FOO on twin containers without and with Container.OPTIONSFilter; Spec.c17Holds on the observation: the Allow set of every 405 and the Allow / Access-Control-Allow-Methods sets of the OPTIONS filter equal the set of methods not answered 404/405, the filter runs no route function and leaves other methods untouched; both routers; non-trivial = some method not answered 404"
+		run.Rule = "tables of the fragment both matching engines support (literal and plain-variable segments, literal roots, nested on purpose), every generated URL probed with GET, POST, PUT, PATCH, DELETE, HEAD, OPTIONS, TRACE, FOO on twin containers without and with Container.OPTIONSFilter; Spec.c17Holds on the observation: the Allow set of every 405 and the Allow / Access-Control-Allow-Methods sets of the OPTIONS filter equal the set of methods not answered 404/405, the filter runs no route function and leaves other methods untouched; every URL is also asked with OPTIONS requests that carry Access-Control-Request-Method (browser preflights: a routable method, one in lower case, one that is not routable, a junk value) and Spec.c17HoldsAll demands of each answer that Allow and Access-Control-Allow-Methods both list exactly the routable methods and no route function ran; allow.CheckHistory: the same on containers with a past — after OPTIONS / preflight / GET traffic to the URL a WebService is removed again (Container.Remove), or a route is added to a REGISTERED WebService (ws.Route after Container.Add) or removed from it (ws.RemoveRoute, dynamic routes), three times out of four a route that changes what is routable at the URL; the observation must equal (as sets) the one of freshly built containers holding the final table, the predicate and the model are given the final table; both routers; non-trivial = some method not answered 404"
 		routingMeta(run)
 		n := sizes(run, 120, 2500)
 		if err := allow.Check(run, "curly", n, 8); err != nil {
@@ -320,8 +369,9 @@ func init() {
 		if err := allow.Check(run, "jsr", n, 8); err != nil {
 			return err
 		}
-		// the same on containers with a past (a WebService added, traffic, removed again): what the
-		// filter lists must follow the registration state like routing does
+		// the same on containers with a past (a WebService added, traffic, removed again; a route added to
+		// or removed from a registered WebService after traffic): what the filter lists must follow the
+		// registration state like routing does
 		for _, router := range []string{"curly", "jsr"} {
 			if err := allow.CheckHistory(run, router, n/2, 6); err != nil {
 				return err
